@@ -185,11 +185,21 @@ type ruleSet struct {
 	// allZoo: every round runs all zoo files (loadtime.go); otherwise one zoo file per round, in rotation (the zoo
 	// files are large, and the rule sets with custom GetType filters pay a cold source import per engine)
 	allZoo bool
+	// only: the set runs on the targets whose name has this prefix only (and without the shared-RunContext group)
+	only string
+	// freshBase: the set needs no source imports at run time, so the baseline of the in-memory targets is taken the
+	// way the property states it: a lone Run on a FRESH engine per file (the engine used for the other files then has
+	// to agree with it, in both orders)
+	freshBase bool
+	// perG: files per goroutine and round (0: all)
+	perG int
+	// mem: one in-memory target per round joins the rotation (sets that are not allZoo)
+	mem bool
 }
 
 var ruleSets = []ruleSet{
 	{name: "types", files: []string{"types.go"}, text: map[string]string{"types.go": rulesTypes}},
-	{name: "mixed", files: []string{"mixed.go"}, text: map[string]string{"mixed.go": rulesMixed}},
+	{name: "mixed", files: []string{"mixed.go"}, text: map[string]string{"mixed.go": rulesMixed}, mem: true},
 	{name: "two-files", files: []string{"a.go", "b.go"}, text: map[string]string{"a.go": rulesSecondA, "b.go": rulesSecondB}},
 }
 
@@ -372,8 +382,27 @@ func checkTargets(dir string, scale int) ([]*target, error) {
 		return nil, err
 	}
 	zooTargets, err = checkSources(dir, zooSources(scale), fset, imp)
+	if err != nil {
+		return base, err
+	}
+	// the natives rule set is generated from the table of natives an engine really has
+	e, err := hutil.LoadEngine(fset, map[string]string{"probe.go": rulesSecondA}, []string{"probe.go"})
+	if err != nil {
+		return base, fmt.Errorf("natives: %v", err)
+	}
+	nativesOut, err = genNativesRules(ruleguard.VerifNativeNames(e), imp)
+	if err != nil {
+		return base, err
+	}
+	ruleSets = append(ruleSets, ruleSet{name: "natives", files: []string{"natives.go"}, text: map[string]string{"natives.go": nativesOut.rules},
+		allZoo: true, only: "mt", freshBase: true, perG: 4})
+	ruleSets = append(ruleSets, ruleSet{name: "natives-std", files: []string{"nativesstd.go"}, text: map[string]string{"nativesstd.go": nativesOut.rulesStd},
+		allZoo: true, only: "mt", perG: 3})
+	err = checkMemTargets(dir, fset, imp, nativesOut.nDo, nativesOut.nFlt)
 	return base, err
 }
+
+var nativesOut *nvOut
 
 func checkSources(dir string, srcs map[string]string, fset *token.FileSet, imp types.Importer) ([]*target, error) {
 	var names []string
@@ -409,6 +438,10 @@ func checkSources(dir string, srcs map[string]string, fset *token.FileSet, imp t
 // ------------------------------------------------------------------------------------------------ explore
 
 func loadEngine(rs ruleSet, fset *token.FileSet) (*ruleguard.Engine, error) {
+	if os.Getenv("C08_TIMING") != "" {
+		t0 := time.Now()
+		defer func() { fmt.Fprintf(os.Stderr, "load %s: %v\n", rs.name, time.Since(t0)) }()
+	}
 	return hutil.LoadEngine(fset, rs.text, rs.files)
 }
 
@@ -582,10 +615,44 @@ func explore(enc0 *json.Encoder, targets []*target, sets []int, ns []int, seed i
 				enc.Encode(map[string]interface{}{"k": "error", "what": "load " + rs.name + ": " + err.Error()})
 				return
 			}
+			pm := pmFiles
+			targets := targets
+			if rs.only != "" {
+				pm = nil
+				var sel []*target
+				for _, t := range targets {
+					if strings.HasPrefix(t.name, rs.only) {
+						sel = append(sel, t)
+					}
+				}
+				targets = sel
+			}
 			for _, t := range targets {
+				if rs.freshBase && strings.HasPrefix(t.name, "mt") {
+					e, err := loadEngine(rs, fset)
+					if err != nil {
+						enc.Encode(map[string]interface{}{"k": "error", "what": "load " + rs.name + ": " + err.Error()})
+						return
+					}
+					base[t.name] = runOnce(e, t.t, nil, nil)
+					if p := base[t.name].Panic; p != "" && rs.only != "" {
+						enc.Encode(map[string]interface{}{"k": "error", "what": "the lone Run of " + rs.name + " on " + t.name + " fails: " + p})
+					}
+					// the engine that has seen the other files answers the same
+					r := runOnce(eA, t.t, nil, nil)
+					agree := reflect.DeepEqual(r, base[t.name])
+					m := map[string]interface{}{"k": "baseline", "ruleset": rs.name, "file": t.name, "agree": agree,
+						"reports": len(base[t.name].Reports), "panic": base[t.name].Panic, "order": "forward"}
+					if !agree {
+						m["other"] = r
+						m["expected"] = base[t.name]
+					}
+					enc.Encode(m)
+					continue
+				}
 				base[t.name] = runOnce(eA, t.t, nil, nil)
 			}
-			for _, t := range pmFiles {
+			for _, t := range pm {
 				base[t.name] = runOnce(eA, t.t, nil, nil)
 			}
 			{
@@ -627,8 +694,8 @@ func explore(enc0 *json.Encoder, targets []*target, sets []int, ns []int, seed i
 			for i := len(targets) - 1; i >= 0; i-- {
 				check("baseline", eA, stA, targets[i])
 			}
-			for i := len(pmFiles) - 1; i >= 0; i-- {
-				check("baseline", eA, stA, pmFiles[i])
+			for i := len(pm) - 1; i >= 0; i-- {
+				check("baseline", eA, stA, pm[i])
 			}
 			if fresh {
 				for _, t := range targets {
@@ -651,15 +718,23 @@ func explore(enc0 *json.Encoder, targets []*target, sets []int, ns []int, seed i
 					if !rs.allZoo && len(zooTargets) > 0 {
 						roundTargets = nil
 						pick := zooTargets[(round*len(ns)+n+si)%len(zooTargets)]
+						var pickMem *target
+						if len(memTargets) > 0 && rs.mem {
+							pickMem = memTargets[(round*len(ns)+n+si)%len(memTargets)]
+						}
 						for _, t := range targets {
-							if !strings.HasPrefix(t.name, "pz") || t == pick {
+							if !(strings.HasPrefix(t.name, "pz") || strings.HasPrefix(t.name, "mt")) || t == pick || t == pickMem {
 								roundTargets = append(roundTargets, t)
 							}
 						}
 					}
 					for _, phase := range []string{"cold", "warm"} {
 						rseed := seed*1000003 + int64(round)*7919 + int64(si)*131 + int64(n)
-						exploreRound(enc, e, rs, roundTargets, base, n, phase, rseed, perG)
+						pg := perG
+						if rs.perG > 0 && n > 2 {
+							pg = rs.perG
+						}
+						exploreRound(enc, e, rs, roundTargets, pm, base, n, phase, rseed, pg)
 					}
 				}
 				if time.Now().After(deadline) {
@@ -671,7 +746,7 @@ func explore(enc0 *json.Encoder, targets []*target, sets []int, ns []int, seed i
 	wg.Wait()
 }
 
-func exploreRound(enc *lockedEnc, e *ruleguard.Engine, rs ruleSet, targets []*target, base map[string]runResult, n int, phase string, seed int64, perG int) {
+func exploreRound(enc *lockedEnc, e *ruleguard.Engine, rs ruleSet, targets []*target, pmFiles []*target, base map[string]runResult, n int, phase string, seed int64, perG int) {
 	k0, _ := ruleguard.VerifTypeCache(e)
 	p0 := ruleguard.VerifPkgCache(e)
 	pool := &sync.Pool{New: func() interface{} { return ruleguard.NewRunnerState(e) }}
@@ -795,6 +870,52 @@ var fqnPool = []string{
 	"container/list.List", "container/ring.Ring", "sort.Interface", "fmt.Stringer", "error", "int", "string",
 	"os.File", "errors.nosuchtype", "nosuch/pkg.T", "notanfqn", "io.nosuch", "unicode/utf8.RuneError", "strings.NewReader",
 	"c08/pa.f0", "c08/pb.ints", "c08/pb.named",
+	// names in the in-memory dependency that the variants of the in-memory targets disagree about (memtargets.go)
+	memDepPath + ".Handler", memDepPath + ".Conf", memDepPath + ".Level", memDepPath + ".nosuch", memMidPath + ".Sink", memMidPath + ".Wrap",
+}
+
+// typeLabel: the type's string, marked with the variant when it is declared in an in-memory dependency (the variants
+// give the same names to different types)
+func typeLabel(t types.Type) string {
+	if t == nil {
+		return "<nil>" // FindType answered "found" without a type
+	}
+	if n, ok := types.Unalias(t).(*types.Named); ok && n.Obj().Pkg() != nil {
+		if v, ok := memPkgVariant[n.Obj().Pkg()]; ok {
+			return fmt.Sprintf("%s#v%d", t.String(), v)
+		}
+	}
+	return t.String()
+}
+
+// closureLookup: what the name denotes among the packages that pkg depends on (the oracle for the dependency branch of
+// FindType: a breadth-first walk over Imports(), independent of findDependency)
+func closureLookup(pkg *types.Package, fqn string) (typ types.Type, inClosure bool) {
+	pos := strings.LastIndexByte(fqn, '.')
+	if pos < 0 || pkg == nil {
+		return nil, false
+	}
+	path, name := fqn[:pos], fqn[pos+1:]
+	seen := map[*types.Package]bool{pkg: true}
+	queue := []*types.Package{pkg}
+	for len(queue) > 0 {
+		p := queue[0]
+		queue = queue[1:]
+		if p.Path() == path && p.Complete() {
+			// whatever object has that name (the engine does not insist on a type name)
+			if obj := p.Scope().Lookup(name); obj != nil {
+				return obj.Type(), true
+			}
+			return nil, true
+		}
+		for _, q := range p.Imports() {
+			if !seen[q] {
+				seen[q] = true
+				queue = append(queue, q)
+			}
+		}
+	}
+	return nil, false
 }
 
 type ftOp struct {
@@ -904,7 +1025,22 @@ func findtypeMode(enc *json.Encoder, targets []*target, seed int64, nscripts, nb
 	for _, t := range targets {
 		tnames = append(tnames, t.name)
 	}
-	enc.Encode(map[string]interface{}{"k": "oracle", "table": otab, "deps": deps, "importable": importable, "targets": tnames})
+	// the dependency branch, per calling package: what the name denotes among ITS dependencies
+	deptab := map[string]map[string]interface{}{}
+	for i, t := range targets {
+		row := map[string]interface{}{}
+		for _, f := range fqnPool {
+			if typ, in := closureLookup(t.t.Pkg, f); in {
+				if typ != nil {
+					row[f] = typeLabel(typ)
+				} else {
+					row[f] = nil
+				}
+			}
+		}
+		deptab[strconv.Itoa(i)] = row
+	}
+	enc.Encode(map[string]interface{}{"k": "oracle", "table": otab, "deps": deps, "importable": importable, "targets": tnames, "deptab": deptab})
 	// engine-level probe: a lone run on a fresh engine vs. the same run after another file warmed the type cache
 	{
 		byName := map[string]*target{}
@@ -933,11 +1069,13 @@ func findtypeMode(enc *json.Encoder, targets []*target, seed int64, nscripts, nb
 		if err != nil {
 			return ftRes{Err: err.Error()}
 		}
-		if typ == nil {
-			return ftRes{OK: true, Type: "<nil>"} // FindType answered "found" without a type
-		}
-		r := ftRes{OK: true, Type: typ.String()}
-		if ht, ok := oracle.lookup(op.FQN); ok {
+		r := ftRes{OK: true, Type: typeLabel(typ)}
+		if ct, in := closureLookup(pkg, op.FQN); in {
+			// resolved among the dependencies of the calling package: that very type object -- or, after a hit in the
+			// engine-wide cache, the importer's object for the same type (which variant of an in-memory dependency
+			// an answer comes from is in its label)
+			r.SameAsHost = ct != nil && typ != nil && (types.Identical(typ, ct) || ruleguard.VerifXtypesIdentical(typ, ct))
+		} else if ht, ok := oracle.lookup(op.FQN); ok && typ != nil {
 			r.SameAsHost = ruleguard.VerifXtypesIdentical(typ, ht)
 		}
 		return r
@@ -1088,10 +1226,21 @@ func main() {
 				sets = append(sets, i)
 			}
 		}
-		all := append(append([]*target(nil), targets...), zooTargets...)
+		all := append(append(append([]*target(nil), targets...), zooTargets...), memTargets...)
+		cov := map[string]interface{}{"k": "natives", "bound": nativesOut.bound, "covered": nativesOut.covered, "uncovered": nativesOut.uncovered,
+			"helpers": nativesOut.helpers, "do_rules": nativesOut.nDo, "filter_rules": nativesOut.nFlt}
+		enc.Encode(cov)
 		explore(enc, all, sets, parseInts(*nsFlag), *seed, time.Duration(*budget*float64(time.Second)), *perG, *fresh)
+	case "natives-src":
+		fmt.Println(nativesOut.rules)
+		fmt.Println("// ---------------- natives-std")
+		fmt.Println(nativesOut.rulesStd)
+		for _, t := range memTargets {
+			fmt.Printf("// ---------------- %s (%s)\n%s\n", t.name, t.t.Path, t.t.Src)
+		}
+		return
 	case "findtype":
-		findtypeMode(enc, targets, *seed, *nscripts, *nburst)
+		findtypeMode(enc, append(append([]*target(nil), targets...), memTargets...), *seed, *nscripts, *nburst)
 	}
 	enc.Encode(map[string]interface{}{"k": "done", "gomaxprocs": runtime.GOMAXPROCS(0)})
 }
